@@ -1,5 +1,6 @@
 import PedVerif.Props.C20
 open PedVerif.Mixins
+-- GenericMixin: the clauses of the property
 #print axioms type_vars_exact
 #print axioms type_var_single
 #print axioms type_var_multiple
@@ -7,6 +8,7 @@ open PedVerif.Mixins
 #print axioms unparametrised_asserts
 #print axioms must_assert
 #print axioms direct_with_parametrised_mixins
+#print axioms redeclared_generic_over_bound_base
 #print axioms binding_subclass_of_direct_with_parametrised_mixins
 #print axioms binding_subclass_foreign_bases_any_position
 #print axioms loop_select
@@ -16,26 +18,46 @@ open PedVerif.Mixins
 #print axioms binding_of_foreign_generic_base
 #print axioms loop_order_independent
 #print axioms type_vars_order_independent
+#print axioms odd_answers_alike_in_either_order
 #print axioms foreign_not_derives
 #print axioms usesMixin_derives
 #print axioms outside_the_claimed_binding_shapes
 #print axioms lookup_plain_single
 #print axioms lin_nodup
+-- histories of queries: the world is threaded through `runQueriesW`; the independence rests on the generated facts of `leftBehind`
+#print axioms queries_leave_nothing_behind
+#print axioms query_in_untouched_world
+#print axioms query_independent_of_history
+#print axioms history_exact
+#print axioms subclass_of_binding_subclass_answers_for_itself
+-- create_decorator
 #print axioms applyApps_dict
 #print axioms transformation_receives_f_type_value
+#print axioms closures_keep_their_argument
+#print axioms configured_decorator_keeps_its_argument
+-- get_decorated_functions inside the guard
 #print axioms scanView_eq
 #print axioms decorated_scan_exact
 #print axioms decorated_exact
 #print axioms decorated_exact_one_class
 #print axioms wdm_subclass_type_var
+-- … and outside: the guard's complement is the union of the named regions (finding ids); what the code does in each of them
+#print axioms guard_iff_no_region
 #print axioms decorated_exact_full_fails
+#print axioms dunder_named_method_never_reported
+#print axioms fresh_transformation_drops_everything
 #print axioms fresh_transformation_loses_entry
+#print axioms scan_escapes
 #print axioms enum_name_collision_reports_enum_class
+#print axioms enum_value_upper_reports_str_and_enum_class
+#print axioms enum_value_get_raises_type_error
+#print axioms static_or_class_method_never_bound
 #print axioms staticmethod_reported_unbound
 #print axioms raising_property_escapes
+#print axioms instance_attribute_reported
+-- facts read from the source.  `helpers_keep_nothing` (loop facts) is a premise of mixin_bases_win / kind_bound; the values pinned by
+-- `mixins_source_shape` (attribute names) and by `mixins_keep_no_state` (dunder methods, class keywords, class / module state of
+-- with_decorated_methods.py) are TRIPWIRES: the model does not branch on them, a change of one of them asks for a look at the model
 #print axioms mixins_source_shape
 #print axioms helpers_keep_nothing
 #print axioms mixins_keep_no_state
-#print axioms configured_decorator_keeps_its_argument
-#print axioms query_independent_of_history
-#print axioms history_exact
